@@ -11,6 +11,8 @@ package main
 
 import (
 	"flag"
+	"os"
+	"runtime/pprof"
 	"time"
 
 	"verifh/ev"
@@ -19,6 +21,7 @@ import (
 var (
 	flagChild = flag.String("c14child", "", "internal: run one cluster case (JSON) in this process")
 	flagOnly  = flag.String("only", "", "debug: comma-separated parts to run (a,c,layers)")
+	flagProf  = flag.String("cpuprofile", "", "debug: write a CPU profile")
 )
 
 func main() {
@@ -26,6 +29,11 @@ func main() {
 	if *flagChild != "" {
 		childMain(*flagChild)
 		return
+	}
+	if *flagProf != "" {
+		f, _ := os.Create(*flagProf)
+		pprof.StartCPUProfile(f)
+		defer pprof.StopCPUProfile()
 	}
 	r := ev.Start("C14", "model_checking")
 	want := func(p string) bool {
@@ -45,7 +53,7 @@ func main() {
 	if want("a") {
 		b := bounds{MaxMachines: 3, MaxCap: 3, MaxRequests: 3, MaxProcs: 3, Priorities: 2}
 		if r.Thorough() {
-			b = bounds{MaxMachines: 4, MaxCap: 3, MaxRequests: 4, MaxProcs: 3, Priorities: 3}
+			b = bounds{MaxMachines: 4, MaxCap: 3, MaxRequests: 4, MaxProcs: 3, Priorities: 2}
 		}
 		t0 := time.Now()
 		c, s, t := runPlacement(r, b)
@@ -54,6 +62,27 @@ func main() {
 		states += s
 		transitions += t
 		traces += t
+	}
+	// The sibling layers (separate processes) run while part (c) runs.
+	type layerRes struct {
+		key      string
+		c        map[string]interface{}
+		s, t, tr int64
+	}
+	var layerCh chan []layerRes
+	if want("layers") {
+		layerCh = make(chan []layerRes, 1)
+		go func() {
+			var out []layerRes
+			for _, l := range []struct{ key, bin string }{
+				{"layer_d_local_mode", "c19-sched"},
+				{"layer_b_live_manager", "c14s-sched"},
+			} {
+				c, s, t, tr := runLayer(r, l.key, l.bin)
+				out = append(out, layerRes{l.key, c, s, t, tr})
+			}
+			layerCh <- out
+		}()
 	}
 	if want("c") {
 		t0 := time.Now()
@@ -64,23 +93,22 @@ func main() {
 		transitions += t
 		traces += t
 	}
-	if want("layers") {
-		for _, l := range []struct{ key, bin string }{
-			{"layer_d_local_mode", "c19-sched"},
-			{"layer_b_live_manager", "c14s-sched"},
-		} {
-			c, s, t, tr := runLayer(r, l.key, l.bin)
-			if c != nil {
-				cov[l.key] = c
+	if layerCh != nil {
+		for _, l := range <-layerCh {
+			if l.c != nil {
+				cov[l.key] = l.c
 			}
-			states += s
-			transitions += t
-			traces += tr
+			states += l.s
+			transitions += l.t
+			traces += l.tr
 		}
 	}
 	cov["states"] = states
 	cov["transitions"] = transitions
 	cov["traces_validated_against_impl"] = traces
+	if *flagProf != "" {
+		pprof.StopCPUProfile()
+	}
 	r.Finish(cov)
 }
 
